@@ -51,6 +51,53 @@ def summarise(run):
             "ncb": len(re.findall(r"^    void on\w+\(", h, re.M)) if h else 0}
 
 
+def cli_sequences(chk):
+    """the mode relations through the command line, over sequences of runs in ONE directory: after every successful run the files on disk are what the
+    library produces for the current source in that mode (form in both modes, support header in generate mode only and never stale); reject mode fails
+    exactly when the generate-mode header of the current source has bindings or callbacks"""
+    import shutil
+    import subprocess
+    import tempfile
+    from vlib import build_cli
+    qmluic = build_cli()
+    head = "import qmluic.QtWidgets\n"
+    static = head + 'QWidget { QLineEdit { id: edit } QPushButton { id: btn; text: "x" } }\n'
+    handler = head + 'QWidget { QLineEdit { id: edit } QPushButton { id: btn; text: "x"; onClicked: edit.clear() } }\n'       # same form as `static`
+    dynamic = head + 'QWidget { windowTitle: edit.text; QLineEdit { id: edit } QPushButton { id: btn; text: "x" } }\n'          # same form as `static`
+    other = head + 'QWidget { QLineEdit { id: edit } QPushButton { id: btn; text: "y" } }\n'
+    docs = {"static": static, "handler": handler, "dynamic": dynamic, "other": other}
+    lib = translate([{"id": k, "src": v, "type_name": "X", "modes": ["generate", "reject"]} for k, v in docs.items()], metatypes=[QT5_METATYPES])
+    sequences = [[("reject", "static"), ("generate", "static"), ("generate", "handler"), ("reject", "handler"), ("generate", "static"), ("generate", "dynamic"), ("reject", "dynamic")],
+                 [("generate", "static"), ("generate", "handler"), ("generate", "dynamic"), ("generate", "other"), ("reject", "other"), ("generate", "handler")],
+                 [("generate", "dynamic"), ("reject", "static"), ("generate", "static"), ("reject", "handler"), ("generate", "handler")]]
+    for si, seq in enumerate(sequences):
+        d = tempfile.mkdtemp(prefix="c14-", dir=chk.work)
+        try:
+            for step, (mode, doc) in enumerate(seq):
+                open(os.path.join(d, "X.qml"), "w").write(docs[doc])
+                cmd = [qmluic, "generate-ui", "--foreign-types", QT5_METATYPES] + (["--no-dynamic-binding"] if mode == "reject" else []) + ["X.qml"]
+                p = subprocess.run(cmd, cwd=d, capture_output=True, text=True, timeout=60)
+                chk.count({"cli_sequence": si, "step": step}, nontrivial=step > 0)
+                want = lib[doc][mode]
+                want_ok = not want.get("n_errors")
+                ctx = {"sequence": [list(x) for x in seq[:step + 1]], "qml": docs[doc], "exit": p.returncode, "stderr": p.stderr[-400:], "files": sorted(os.listdir(d))}
+                if (p.returncode == 0) != want_ok:
+                    chk.violation("step %d of CLI sequence %d (%s mode on `%s`): exit %d, the library %s the document in that mode" % (step, si, mode, doc, p.returncode, "accepts" if want_ok else "rejects"), ctx)
+                    break
+                if p.returncode != 0:
+                    continue
+                ui = open(os.path.join(d, "x.ui")).read() if os.path.exists(os.path.join(d, "x.ui")) else None
+                if ui != want.get("ui"):
+                    chk.violation("step %d of CLI sequence %d: x.ui on disk is not the form of the current source" % (step, si), dict(ctx, on_disk=ui, expected=want.get("ui")))
+                if mode == "generate":
+                    h = open(os.path.join(d, "uisupport_x.h")).read() if os.path.exists(os.path.join(d, "uisupport_x.h")) else None
+                    if h != want.get("header"):
+                        chk.violation("step %d of CLI sequence %d: uisupport_x.h on disk is %s, not the support code of the current source" % (step, si, "missing" if h is None else "stale or different"),
+                                      dict(ctx, on_disk=h, expected=want.get("header")))
+        finally:
+            shutil.rmtree(d, ignore_errors=True)
+
+
 def run(chk):
     build_harness()
     quick = chk.tier == "quick"
@@ -103,5 +150,6 @@ def run(chk):
                                                            recs[idx]["omit"]["errors"][:2] or "accepted"),
                       {"invariant": inv, "qml": q["src"], "record": recs[idx]})
     chk.sample({"record": recs[len(names) + 5], "qml": back[len(names) + 5]["src"][-400:]})
+    cli_sequences(chk)
     chk.sample({"kind_document": KINDS[0]})
     chk.cov["trusted_base"] = ["TLC", "regex count of BindingIndex enumerators and on<...> functions", "sha1 of the form text"]
